@@ -21,7 +21,8 @@ cv_i1 ap_aw_cas(ATOMAW *a, AWT **expected, AWT *desired, cv_i32 so, cv_i32 fo) {
 #define LOG(i) (&(*G_LOG)[i])
 #ifdef DRIVE_main
 void h_drive(void) {
-  int nlist = nondet_unsigned(), v1 = nondet_unsigned(), v2 = nondet_unsigned(), by_ref = nondet_bool(), late = nondet_bool(), lim = nondet_unsigned();
+  int nlist, late, lim; int in_v1 = nondet_unsigned(), in_v2 = nondet_unsigned(), in_by_ref = nondet_bool();      /* in_*: passed to the native replay (replay/c15_drive.cpp) */
+  int v1 = in_v1, v2 = in_v2, by_ref = in_by_ref;
   nlist = DRIVE_NLIST; late = DRIVE_LATE; lim = DRIVE_LIM;            /* concrete shapes (one unit per shape): the suspend-point merge is too expensive for symbolic list lengths */
   *G_CB_LIMIT = lim;
   unsigned a0 = gh_allocs, f0 = gh_frees;
